@@ -462,6 +462,12 @@ V("c01-silent-mask-cut-only", "C01", "silent", LG, "            W[:, targets] = 
 V("c01-result-type-dtype", "C01", "fire", LG, "        variances = self.variances.astype(float)\n        means = self.means.astype(float)\n", "        dtype = np.result_type(self.W, self.means, self.variances)\n        variances = self.variances.astype(dtype)\n        means = self.means.astype(dtype)\n", rule="DTYPE", what="common dtype of the model arrays: all-integer models truncate")
 V("c02-cancelling-source-shortcut", "C02", "fire", AN, "                assignment = np.transpose(self.assignments[i](X[:, self.A[:, i] != 0]))\n", "                if self.A[:, i].sum() == 0:\n                    assignment = 0\n                else:\n                    assignment = np.transpose(self.assignments[i](X[:, self.A[:, i] != 0]))\n", rule="PAT", what="parentless shortcut decided by the signed column sum")
 V("c02-set-order-parents", "C02", "fire", AN, "                assignment = np.transpose(self.assignments[i](X[:, self.A[:, i] != 0]))\n", "                parents = list(utils.pa(i, self.A))\n                assignment = np.transpose(self.assignments[i](X[:, parents]))\n", rule="CASES", what="parent columns in set-iteration order")
+V("c02-cached-parent-sets", "C02", "fire", AN, "        self.A = deepcopy(A)\n", "        self.A = deepcopy(A)\n        self.parents = [utils.pa(i, self.A) for i in range(self.p)]\n", rule="CASES",
+  more=[(AN, "                assignment = np.transpose(self.assignments[i](X[:, self.A[:, i] != 0]))\n", "                parents = list(self.parents[i])\n                assignment = np.transpose(self.assignments[i](X[:, parents]))\n")],
+  what="parent sets cached by the constructor, listed in set-iteration order by sample (seed C02-r14-1: two sites, p >= 9)")
+V("c02-silent-cached-parent-lists", "C02", "silent", AN, "        self.A = deepcopy(A)\n", "        self.A = deepcopy(A)\n        self.parents = [utils.pa(i, self.A) for i in range(self.p)]\n",
+  more=[(AN, "                assignment = np.transpose(self.assignments[i](X[:, self.A[:, i] != 0]))\n", "                parents = sorted(self.parents[i])\n                assignment = np.transpose(self.assignments[i](X[:, parents]))\n")],
+  what="cached parent sets, sorted at the use: the same columns in increasing index")
 V("c10-pattern-chain-test", "C10", "fire", UT, "    return (A == chain_graph(p)).all()", "    return ((A != 0) == (chain_graph(p) != 0)).all()", rule="PAT", what="pattern-based chain test lets weighted chains into the value-comparing shortcut")
 
 # ------------------------------------------------------------------------------- more seed-inspired variants
